@@ -10,6 +10,7 @@ import (
 	"time"
 
 	"github.com/nautilus/gateway"
+	"github.com/nautilus/graphql"
 	"github.com/vektah/gqlparser/v2/ast"
 	"github.com/vektah/gqlparser/v2/formatter"
 )
@@ -111,8 +112,9 @@ func (c11) Run(c *Ctx, i int) CaseResult {
 		ids = ids[:3] // an unknown id under the gateway's own node field is a known-finding region
 	}
 	type reqT struct {
-		vars map[string]interface{}
-		want string
+		vars  map[string]interface{}
+		want  string
+		calls int // outbound calls of the solitary execution
 	}
 	reqs := make([]reqT, n+3)
 	for k := range reqs {
@@ -131,6 +133,7 @@ func (c11) Run(c *Ctx, i int) CaseResult {
 			return res
 		}
 		reqs[k].want = Canon(fc.Out.Data) + "|" + fmt.Sprint(errMultiset(fc.Out.Err))
+		reqs[k].calls = fc.Fed.TotalCalls()
 		if ok, _ := fc.Status(); !ok {
 			res.Skipped = "reference-not-transparent" // C01's subject
 			return res
@@ -143,6 +146,12 @@ func (c11) Run(c *Ctx, i int) CaseResult {
 		return res
 	}
 	before := planPrint(plans[0])
+	// every service call takes a moment, so that the calls of concurrent requests (several of which carry the very
+	// same variables) overlap
+	f.ResetLogs()
+	for _, svc := range f.Services {
+		svc.Gate = func(sv *Service, n int, in *graphql.QueryInput) { time.Sleep(300 * time.Microsecond) }
+	}
 	got := make([]string, len(reqs))
 	var wg sync.WaitGroup
 	exec := func(k int) {
@@ -185,6 +194,7 @@ func (c11) Run(c *Ctx, i int) CaseResult {
 	}
 	// every outbound call: variables belong to the request whose context it carries
 	ncalls := 0
+	perReq := map[int]int{}
 	for _, svc := range f.Services {
 		for _, call := range svc.Calls() {
 			ncalls++
@@ -196,6 +206,7 @@ func (c11) Run(c *Ctx, i int) CaseResult {
 				bad("L0.context", "an outbound call carries a context that belongs to no request", nil, call.Query)
 				continue
 			}
+			perReq[k]++
 			for name, v := range call.Variables {
 				if name == "id" {
 					continue
@@ -204,6 +215,12 @@ func (c11) Run(c *Ctx, i int) CaseResult {
 					bad("L0.variables", fmt.Sprintf("a call made for request %d carries $%s = %v, that request's value is %v", k, name, v, reqs[k].vars[name]), reqs[k].vars, call.Variables)
 				}
 			}
+		}
+	}
+	for k := range reqs {
+		if perReq[k] != reqs[k].calls {
+			bad("L0.own-calls", fmt.Sprintf("request %d (variables %v) made %d outbound calls under its own context, its solitary execution makes %d: its calls were not all made for it", k, reqs[k].vars, perReq[k], reqs[k].calls), reqs[k].calls, perReq[k])
+			break
 		}
 	}
 	if len(res.Fails) == 0 {
